@@ -29,7 +29,7 @@ pub fn plan() -> Plan {
         profiles,
         directed: vec![],
         quick_histories: 500,
-        thorough_histories: 80000,
+        thorough_histories: 320_000,
         s5: Some((2, 30, s4common::s5_default(false, 3))),
         enumerate_session_end: None,
         enumerate_symbols: None,
